@@ -35,7 +35,7 @@ import (
 )
 
 func TestMain(m *testing.M) {
-	evid.Rule("conversation = (family, address pair, protocol, port pair, what each side sends first); case = the first packet of side A (a->b) and the first packet of side B (b->a), both parsed with ParsePacketV4/V6 and stored as addToFlowLog stores a new flow; " +
+	evid.Rule("conversation = (family, address pair, protocol, port pair, what each side sends first); case = the first packet of side A (a->b) and the first packet of side B (b->a), both parsed with ParsePacketV4/V6 and stored as addToFlowLog stores a new flow (re-stated from the classifier's verdict); a further run (through-capture) feeds decisive conversations — TCP handshakes incl. ECN flag variants, ICMP echo / timestamp, decisive port pairs, both families — through the real capture (capture.Manager on an in-memory source inside a synctest bubble) in both orders and with only one of the two packets and compares the written flow record; " +
 		"ports: boundary/common ports x boundary/common ports, rapid-sampled 256-pair blocks (quick), all 2^32 ordered pairs for TCP without flags and UDP in both families sharded over processes (thorough); " +
 		"TCP flags: all 256 x 256 flag bytes of the two sides on a port grid; ICMP/ICMPv6: all 256 x 256 type pairs; addresses: unicast, same host, unspecified, limited/directed broadcast, recognised and unrecognised multicast, random; " +
 		"non-trivial = the case is decisive: differing post-aggregation ports (TCP no SYN / UDP unicast), SYN vs SYN-ACK, echo/timestamp request vs reply; enumerations count distinct cases by construction, sampled blocks are deduplicated by block id")
